@@ -9,8 +9,10 @@ def x(s):
     return "x" + s.encode("utf-8").hex()
 
 
-def run_line(main, mods=None, backends=("vm", "tree"), ast=True, limits=None, entry=None, timeout_ms=None):
+def run_line(main, mods=None, backends=("vm", "tree"), ast=True, limits=None, entry=None, timeout_ms=None, asm=False):
     parts = ["(run"]
+    if asm:
+        parts.append("(asm true)")
     parts.append("(backends " + " ".join(backends) + ")" if backends else "(backends)")
     parts.append("(ast true)" if ast else "(ast false)")
     if limits:
@@ -56,7 +58,7 @@ def parse_outcome(s):
     return d
 
 
-def run_all(sources, fuel=200000, call_limit=100, with_spec=True, **kw):
+def run_all(sources, fuel=200000, call_limit=100, with_spec=True, with_model_vm=False, **kw):
     """sources: list of main texts or (main, mods) pairs. Returns list of dicts with keys
     A, VM, TREE, SPEC (parsed outcomes), raw fields."""
     lines = []
@@ -68,6 +70,7 @@ def run_all(sources, fuel=200000, call_limit=100, with_spec=True, **kw):
     go = core.go_lines("run", lines, timeout=900)
     res = []
     spec_in, spec_idx = [], []
+    lim = kw.get("limits") or (100, 500, 10000)
     for i, g in enumerate(go):
         f = split_fields(g)
         r = {"A": f.get("A", f.get("RAW", g[:200])), "raw": f}
@@ -77,14 +80,21 @@ def run_all(sources, fuel=200000, call_limit=100, with_spec=True, **kw):
         for k in ("VM", "TREE"):
             if k in f:
                 r[k] = parse_outcome(f[k])
+        if "ASM" in f:
+            r["ASM"] = f["ASM"]
         if with_spec and "AST" in f:
             spec_in.append(f"spec {fuel} {call_limit} {f['AST']}")
-            spec_idx.append(i)
+            spec_idx.append((i, "SPEC"))
+        if with_model_vm and "AST" in f:
+            spec_in.append(f"vmrun {lim[0]} {lim[1]} {lim[2]} {f['AST']}")
+            spec_idx.append((i, "MVM"))
+            spec_in.append(f"compile {f['AST']}")
+            spec_idx.append((i, "MASM"))
         res.append(r)
     if spec_in:
         spec = core.lean_lines(spec_in, timeout=1800)
-        for i, s in zip(spec_idx, spec):
-            res[i]["SPEC"] = parse_outcome(s)
+        for (i, key), s in zip(spec_idx, spec):
+            res[i][key] = s if key == "MASM" else parse_outcome(s)
     return res
 
 
